@@ -420,3 +420,318 @@ impl Scenario for Stream {
         out.into_iter().filter_map(|c| serde_json::to_value(c).ok()).collect()
     }
 }
+
+// ------------------------------------------------------------------------------------------
+// C10 on the sparse disk: entries whose sizes sit on the 32-bit limit, archives that start near / beyond
+// 4 GiB, more than 65535 entries. "For every unencrypted archive ... emitted by this crate's writer" includes
+// those; the local header of an entry of exactly 0xFFFFFFFF bytes carries the real sizes and no ZIP64 record.
+
+#[derive(Serialize, Deserialize, Clone, Debug, PartialEq)]
+pub struct StreamHugeCase {
+    pub ops: Vec<Op>,
+    pub start_pos: u64,
+    pub consume: Vec<Consume>,
+    pub policy: Policy,
+}
+
+pub struct StreamHuge;
+
+/// (bytes delivered, CRC of them, error) for the first `want` bytes of a reader
+fn digest_prefix<R: Read>(f: &mut R, want: u64, tick: &mut dyn FnMut()) -> (u64, u32, Option<String>) {
+    let mut crc = crate::content::Crc::new();
+    let mut n = 0u64;
+    let mut buf = vec![0u8; 1 << 20];
+    while n < want {
+        let cap = ((want - n).min(buf.len() as u64)) as usize;
+        match f.read(&mut buf[..cap]) {
+            Ok(0) => break,
+            Ok(k) => {
+                crc.update(&buf[..k]);
+                n += k as u64;
+                if n % (1 << 28) < k as u64 {
+                    tick();
+                }
+            }
+            Err(e) if e.kind() == std::io::ErrorKind::Interrupted => {}
+            Err(e) => return (n, crc.finish(), Some(e.to_string())),
+        }
+    }
+    (n, crc.finish(), None)
+}
+
+fn want_of(how: &Consume, size: u64) -> u64 {
+    match how {
+        Consume::Nothing => 0,
+        Consume::One => 1,
+        Consume::K(k) => *k,
+        Consume::AllButOne => size.saturating_sub(1),
+        Consume::All | Consume::AllAndMore => u64::MAX,
+    }
+}
+
+struct HugeV {
+    files: Vec<(Meta, u64, u32, Option<String>)>,
+    metas: Vec<(String, Option<u32>, String)>,
+    order_violation: bool,
+    consume: Vec<Consume>,
+}
+impl ZipStreamVisitor for HugeV {
+    fn visit_file(&mut self, file: &mut zip::read::ZipFile<'_>) -> zip::result::ZipResult<()> {
+        if !self.metas.is_empty() {
+            self.order_violation = true;
+        }
+        let how = self.consume.get(self.files.len()).cloned().unwrap_or(Consume::All);
+        let m = meta_of(file);
+        let (n, c, e) = digest_prefix(file, want_of(&how, m.size), &mut || {});
+        self.files.push((m, n, c, e));
+        Ok(())
+    }
+    fn visit_additional_metadata(&mut self, m: &ZipStreamFileMetadata) -> zip::result::ZipResult<()> {
+        self.metas.push((m.name().to_string(), m.unix_mode(), m.comment().to_string()));
+        Ok(())
+    }
+}
+
+impl Scenario for StreamHuge {
+    fn name(&self) -> &'static str {
+        "stream_huge"
+    }
+    fn total(&self, tier: Tier) -> u64 {
+        match tier {
+            Tier::Quick => 24,
+            Tier::Thorough => 160,
+        }
+    }
+    fn rule(&self) -> &'static str {
+        "one case = an archive written by the crate's writer onto the sparse disk with an entry of 2^32-2 .. 2^32+1 bytes (large_file exactly where the writer requires it, or always), or starting around 4 GiB, or holding more than 65535 entries, streamed from a non-seekable source with a per-entry consumption pattern; the seekable reader on the same disk is the reference (metadata, and length + CRC of the consumed prefix). Non-trivial = every entry was streamed and the visitor delivered the central metadata; distinct = (program shape, start position class, consumption pattern)"
+    }
+    fn gen(&self, seed: u64, idx: u64, tier: Tier) -> Value {
+        const G4: u64 = 1 << 32;
+        let s = mix(mix(seed, fnv(b"stream_huge")), idx);
+        let mut r = Rng::derive(s, "workload");
+        let small = |r: &mut Rng, name: &str| -> Vec<Op> {
+            let m = r.pickc(&[0u16, 8, 8, 12, 93]);
+            vec![Op::StartFile { name: name.into(), o: Opts { method: m, ..Opts::default() } }, Op::Write { c: crate::content::Content::gen(r, 3000), split: vec![] }]
+        };
+        let mut ops: Vec<Op> = vec![];
+        let mut start_pos = 0u64;
+        let slot = idx % 12;
+        match slot {
+            0..=7 => {
+                let len = [G4 - 2, G4 - 1, G4, G4 + 1][(slot % 4) as usize];
+                // large_file only where the writer demands it (slots 0-3), or always (4-7)
+                let large = len > G4 - 1 || slot >= 4;
+                let method = if tier == Tier::Thorough && r.chance(1, 3) { 8 } else { 0 };
+                if r.chance(2, 3) {
+                    ops.extend(small(&mut r, "head.txt"));
+                }
+                ops.push(Op::StartFile { name: format!("big{len}"), o: Opts { method, large, ..Opts::default() } });
+                ops.push(Op::Write { c: crate::content::Content::Sparse { len, seed: r.below(1000) }, split: vec![] });
+                if r.chance(2, 3) {
+                    ops.extend(small(&mut r, "tail.txt"));
+                }
+            }
+            8 | 9 => {
+                // header offsets (and the directory) around / beyond 4 GiB: ZIP64 records in the central headers only
+                start_pos = if slot == 8 { G4 - r.below(300) } else { G4 + r.below(100_000) };
+                for i in 0..r.range(2, 5) {
+                    ops.extend(small(&mut r, &format!("e{i}")));
+                }
+            }
+            10 => {
+                ops.push(Op::Many { n: r.pickc(&[65535u32, 65536, 65537]), prefix: "e".into() });
+                ops.extend(small(&mut r, "last"));
+            }
+            _ => {
+                // a compressed size on the limit is out of reach cheaply; an entry of 2^32-1 bytes behind one that
+                // already pushed the offsets beyond 4 GiB
+                ops.push(Op::StartFile { name: "first".into(), o: Opts { method: 0, large: true, ..Opts::default() } });
+                ops.push(Op::Write { c: crate::content::Content::Sparse { len: G4 + 5, seed: 1 }, split: vec![] });
+                ops.push(Op::StartFile { name: "second".into(), o: Opts { method: 0, large: false, ..Opts::default() } });
+                ops.push(Op::Write { c: crate::content::Content::Sparse { len: G4 - 1, seed: 2 }, split: vec![] });
+                ops.extend(small(&mut r, "tail.txt"));
+            }
+        }
+        let consume = (0..4)
+            .map(|_| match r.below(6) {
+                0 => Consume::Nothing,
+                1 => Consume::One,
+                2 => Consume::K(r.below(1 << 20) + 1),
+                3 => Consume::AllButOne,
+                _ => Consume::All,
+            })
+            .collect();
+        let policy = if r.chance(1, 2) { Policy::Pure } else { Policy::BufLike { cap: 1 << 16 } };
+        serde_json::to_value(StreamHugeCase { ops, start_pos, consume, policy }).unwrap_or(Value::Null)
+    }
+    fn run(&self, case: &Value, ctx: &mut Ctx) -> Verdict {
+        let c: StreamHugeCase = match serde_json::from_value(case.clone()) {
+            Ok(c) => c,
+            Err(e) => return Verdict::Harness(format!("bad case: {e}")),
+        };
+        let store = shared_empty();
+        let (out, _io) = super::prog::exec_on(store.clone(), false, &c.ops, &[], &Policy::Pure, c.start_pos, true);
+        ctx.tick();
+        if let Some(p) = take_panic() {
+            return viol(format!("C10/panic/{}", p.1), p.0);
+        }
+        let mut m = Model::new(ModelCfg { enforce_unrepresentable: false, bzip2_level0_err: true });
+        let lookup = |_: usize, _: usize, _: u8| None;
+        if run_model(&mut m, &c.ops, &out.steps, &out.final_res, &lookup).is_err() || !m.complete || m.lenient || m.chaos {
+            return Verdict::Skip("program did not produce a complete archive".into());
+        }
+        // reference: the seekable reader on the same disk, entries in local-header (= stream) order
+        let mut ar = match guard(|| ZipArchive::new(SimDisk::new(store.clone(), Policy::Pure))) {
+            Ok(Ok(a)) => a,
+            Ok(Err(e)) => return Verdict::Skip(format!("seekable reader rejects the archive: {}", zerr_pub(&e))),
+            Err(v) => return v,
+        };
+        let mut order: Vec<(u64, usize)> = vec![];
+        let mut central: Vec<(String, Option<u32>, String)> = vec![];
+        let mut metas: Vec<Meta> = vec![];
+        for i in 0..ar.len() {
+            let f = match ar.by_index_raw(i) {
+                Ok(f) => f,
+                Err(e) => return Verdict::Skip(format!("seekable reader: {}", zerr_pub(&e))),
+            };
+            order.push((f.header_start(), i));
+            central.push((f.name().to_string(), f.unix_mode(), f.comment().to_string()));
+            metas.push(meta_of(&f));
+        }
+        order.sort();
+        let n = order.len();
+        let many = n > 1000;
+        // what the seekable reader delivers for the consumed prefix of every entry
+        let how_of = |k: usize| -> Consume {
+            if many {
+                if k % 7 == 0 { Consume::All } else { Consume::Nothing }
+            } else {
+                c.consume.get(k).cloned().unwrap_or(Consume::All)
+            }
+        };
+        let mut refs: Vec<(u64, u32)> = vec![];
+        for (k, (_, i)) in order.iter().enumerate() {
+            let how = how_of(k);
+            let mut f = match ar.by_index(*i) {
+                Ok(f) => f,
+                Err(e) => return Verdict::Skip(format!("seekable reader: {}", zerr_pub(&e))),
+            };
+            let size = f.size();
+            let (len, crc, e) = digest_prefix(&mut f, want_of(&how, size), &mut || ctx.tick());
+            if let Some(e) = e {
+                return Verdict::Skip(format!("seekable reader: read error {e}"));
+            }
+            refs.push((len, crc));
+        }
+        // ---- read_zipfile_from_stream loop (the stream starts where the archive starts)
+        let mut st = SimStream::new(store.clone(), c.policy.clone());
+        st.inner.pos = c.start_pos;
+        let io = st.inner.io.clone();
+        set_budget(&io, u64::MAX);
+        for k in 0..=n {
+            let how = how_of(k);
+            let r = match guard(|| match zip::read::read_zipfile_from_stream(&mut st) {
+                Ok(Some(mut f)) => {
+                    let m = meta_of(&f);
+                    let (len, crc, e) = digest_prefix(&mut f, want_of(&how, m.size), &mut || {});
+                    Ok(Some((m, len, crc, e)))
+                }
+                Ok(None) => Ok(None),
+                Err(e) => Err(zerr_pub(&e)),
+            }) {
+                Ok(r) => r,
+                Err(v) => return v,
+            };
+            ctx.tick();
+            match r {
+                Ok(Some((m, len, crc, e))) => {
+                    if k >= n {
+                        return viol("C10/extra-entry", format!("the stream produced an entry after the last one ({:?})", m.name));
+                    }
+                    let rm = &metas[order[k].1];
+                    if &m != rm {
+                        return viol("C10/metadata", format!("entry {k}: stream reports {m:?}, seekable reader {rm:?}"));
+                    }
+                    if let Some(e) = e {
+                        return viol("C10/read-error", format!("entry {k}: {e}"));
+                    }
+                    if (len, crc) != refs[k] {
+                        return viol("C10/content", format!("entry {k} ({how:?}): stream delivered {len} bytes (CRC {crc:08x}), the seekable reader {} bytes (CRC {:08x})", refs[k].0, refs[k].1));
+                    }
+                    if m.size >= (1u64 << 32) - 2 {
+                        ctx.probe("entry_on_the_32bit_limit_streamed");
+                    }
+                }
+                Ok(None) => {
+                    if k < n {
+                        return viol("C10/early-end", format!("end of entries signalled after {k} of {n}"));
+                    }
+                    ctx.probe("end_of_entries_signalled");
+                    break;
+                }
+                Err(e) => return viol("C10/stream-error", format!("entry {k} of {n}: {e}")),
+            }
+        }
+        ctx.absorb(&io);
+        // ---- visitor API
+        let mut st2 = SimStream::new(store.clone(), c.policy.clone());
+        st2.inner.pos = c.start_pos;
+        set_budget(&st2.inner.io, u64::MAX);
+        let mut v = HugeV { files: vec![], metas: vec![], order_violation: false, consume: (0..n).map(|k| how_of(k)).collect() };
+        let r = match guard(|| ZipStreamReader::new(st2).visit(&mut v)) {
+            Ok(r) => r,
+            Err(vd) => return vd,
+        };
+        ctx.tick();
+        if let Err(e) = r {
+            return viol("C10/visit-error", format!("visit failed: {}", zerr_pub(&e)));
+        }
+        if v.order_violation {
+            return viol("C10/visit-order", "visit_file called after visit_additional_metadata".to_string());
+        }
+        if v.files.len() != n {
+            return viol("C10/visit-files", format!("visit_file called {} times for {n} entries", v.files.len()));
+        }
+        for (k, (m, len, crc, e)) in v.files.iter().enumerate() {
+            if m != &metas[order[k].1] {
+                return viol("C10/visit-metadata", format!("visit_file #{k}: {m:?} vs {:?}", metas[order[k].1]));
+            }
+            if let Some(e) = e {
+                return viol("C10/read-error", format!("visit_file #{k}: {e}"));
+            }
+            if (*len, *crc) != refs[k] {
+                return viol("C10/content", format!("visit_file #{k}: {len} bytes (CRC {crc:08x}) vs {} bytes (CRC {:08x})", refs[k].0, refs[k].1));
+            }
+        }
+        if v.metas != central {
+            let d = v.metas.iter().zip(central.iter()).position(|(a, b)| a != b);
+            return viol("C10/visit-additional-metadata", format!("visit_additional_metadata delivered {} records, the central directory has {}; first difference at {:?}", v.metas.len(), central.len(), d));
+        }
+        ctx.probe("visitor_metadata_delivered");
+        if c.start_pos >= (1u64 << 32) - 300 {
+            ctx.probe("archive_around_4gib_streamed");
+        }
+        if many {
+            ctx.probe("more_than_65535_entries_streamed");
+        }
+        ctx.sig = Some(mix(mix(super::prog::prog_sig(&c.ops), c.start_pos >> 20), fnv(format!("{:?}", c.consume).as_bytes())));
+        Verdict::Pass
+    }
+    fn shrink(&self, case: &Value) -> Vec<Value> {
+        let c: StreamHugeCase = match serde_json::from_value(case.clone()) {
+            Ok(c) => c,
+            Err(_) => return vec![],
+        };
+        let mut out = vec![];
+        if !matches!(c.policy, Policy::Pure) {
+            out.push(StreamHugeCase { policy: Policy::Pure, ..c.clone() });
+        }
+        if c.consume.iter().any(|x| *x != Consume::Nothing) {
+            out.push(StreamHugeCase { consume: vec![Consume::Nothing; 4], ..c.clone() });
+        }
+        for o in shrink_ops(&c.ops) {
+            out.push(StreamHugeCase { ops: o, ..c.clone() });
+        }
+        out.into_iter().filter_map(|c| serde_json::to_value(c).ok()).collect()
+    }
+}
